@@ -1,7 +1,7 @@
 /-
 Driver ops of the NATS server shutdown model (C20).
 
-`nstrace <w> <q> <events>`  trace validation: the events observed on the real server
+`nstrace <w> <q> <k> <events>`  (k subjects; `E<i>/<j>`, `X<i>/<j>` name the subject j of request i)  trace validation: the events observed on the real server
   (`E<i>` callback of request i is about to send to workC, `D<i>` a worker received i,
   `P<i>` processFrame for i finished / reply published, `X<i>` the handler turned i away (queue closed),
   `SC` Stop called, `SR` Stop returned nil, `SRE` Stop returned an error (the drain failed), `VR` Serve
@@ -13,7 +13,7 @@ Driver ops of the NATS server shutdown model (C20).
   remembered in `unconf` until the matching `D` arrives.
   Output `ok end=<observable>` or `rejected at <k>:<event>`.
 
-`nsrun <w> <q> <stopPos> <gap> <delay> <jitter> <pub2> <fault> <opts> <durs>` (`nsrun1` = the same, executed in-process by the harness)  the model's prediction for a configuration: a fair
+`nsrun <w> <q> <stopPos> <gap> <delay> <jitter> <pub2> <fault> <opts> <subjects> <durs>` (`nsrun1` = the same, executed in-process by the harness)  the model's prediction for a configuration: a fair
   schedule of the model (first `stopPos` requests arrive, Stop is called, the remaining ones are
   offered while the system runs) is executed to the end.
 -/
@@ -27,41 +27,56 @@ structure VState where
   s : Sys
   unconf : List Msg      -- receives performed on the model whose `D` event has not been seen yet
   fail : Bool := false   -- the log says (somewhere) that Stop returned an error: the drain step failed
+  subjOf : List (Msg × Nat) := []   -- the subscription each request came in on (from its `E` event)
 
 def idleWorker (ws : List Wk) : Option Nat := ws.findIdx? (· == .idle)
 def busyWorker (ws : List Wk) (m : Msg) : Option Nat := ws.findIdx? (· == .busy m)
 
 def stepV (v : VState) (a : Action) : Option VState := (step v.s a).map fun s => { v with s := s }
 
-/-- A worker that is idle in the model receives from workC now (its `D` event will follow). -/
-def hypoTake (v : VState) : Option VState := do
-  let i ← idleWorker v.s.workers
-  let taken ← match v.s.workC, v.s.cb with
-    | x :: _, _ => some x
-    | [], .sending m => some m
-    | _, _ => none
-  let s' ← step v.s (.workerTake i)
-  pure { v with s := s', unconf := v.unconf ++ [taken] }
+def subCb (s : Sys) (j : Nat) : Cb := match s.subs[j]? with | some sb => sb.cb | none => .idle
 
-/-- Let the current callback (if any) complete. -/
-def finishCb : Nat → VState → Option VState
-  | fuel, v =>
-    match v.s.cb with
+/-- A worker that is idle in the model receives now (its `D` event will follow): the oldest frame in the
+buffer of workC, or, with an empty buffer, directly from subscription `j`'s blocked sender. -/
+def hypoTake (j : Nat) (v : VState) : Option VState := do
+  let i ← idleWorker v.s.workers
+  match v.s.workC, subCb v.s j with
+  | x :: _, _ => do
+    let s' ← step v.s (.workerTake i)
+    pure { v with s := s', unconf := v.unconf ++ [x] }
+  | [], .sending m => do
+    let s' ← step v.s (.workerHandoff i j)
+    pure { v with s := s', unconf := v.unconf ++ [m] }
+  | _, _ => none
+
+/-- Let the current callback of subscription `j` (if any) complete. -/
+def finishCb : Nat → Nat → VState → Option VState
+  | fuel, j, v =>
+    match subCb v.s j with
     | .idle => some v
-    | .sent _ => stepV v .callbackDone
+    | .sent _ => stepV v (.callbackDone j)
     | .sending _ =>
-      match stepV v .handlerEnqueue with
-      | some v' => stepV v' .callbackDone
+      match stepV v (.handlerEnqueue j) with
+      | some v' => stepV v' (.callbackDone j)
       | none =>
         match fuel with
         | 0 => none
-        | fuel + 1 => (hypoTake v).bind (finishCb fuel)
+        | fuel + 1 => (hypoTake j v).bind (finishCb fuel j)
 
-def deliverAll : Nat → Sys → Sys
+/-- Let the current callbacks of all subscriptions complete. -/
+def finishAll (v : VState) : Option VState :=
+  (List.range v.s.subs.length).foldlM (fun v j => finishCb (v.s.workers.length + 2) j v) v
+
+def deliverAll (j : Nat) : Nat → Sys → Sys
   | 0, s => s
-  | fuel + 1, s => match step s .deliver with
-    | some s' => deliverAll fuel s'
+  | fuel + 1, s => match step s (.deliver j) with
+    | some s' => deliverAll j fuel s'
     | none => s
+
+def inflightLen (s : Sys) (j : Nat) : Nat := match s.subs[j]? with | some sb => sb.inflight.length | none => 0
+
+def deliverEvery (s : Sys) : Sys :=
+  (List.range s.subs.length).foldl (fun s j => deliverAll j (inflightLen s j) s) s
 
 def servePcRank : ServePc → Nat
   | .running => 0 | .gotQuit => 1 | .unsubbed => 2 | .barrierWait => 3
@@ -80,12 +95,12 @@ def advanceServe (fail : Bool) (target : Nat) : Nat → VState → Option VState
       (stepV v (if fail then .drainFail else if v.s.faulty then .drainStartIgnored else .drainStart)).bind (advanceServe fail target fuel)
     | .unsubbed =>
       if fail then (stepV v .drainFail).bind (advanceServe fail target fuel)
-      else (stepV { v with s := deliverAll (v.s.inflight.length) v.s } .flushBarrier).bind (advanceServe fail target fuel)
+      else (stepV { v with s := deliverEvery v.s } .flushBarrier).bind (advanceServe fail target fuel)
     | .barrierWait =>
       if fail then (stepV v .drainFail).bind (advanceServe fail target fuel)
-      else ((finishCb (v.s.workers.length + 2) v).bind (stepV · .barrierFires)).bind (advanceServe fail target fuel)
+      else ((finishAll v).bind (stepV · .barrierFires)).bind (advanceServe fail target fuel)
     | .barrierDone => (stepV v .sendResult).bind (advanceServe fail target fuel)
-    | .resultSent => ((finishCb (v.s.workers.length + 2) v).bind (stepV · .closeWorkC)).bind (advanceServe fail target fuel)
+    | .resultSent => ((finishAll v).bind (stepV · .closeWorkC)).bind (advanceServe fail target fuel)
     | .closedQ => none
     | .returned => none
 
@@ -95,29 +110,70 @@ def advanceAny (target : Nat) (v : VState) : Option VState := advanceServe v.fai
 def exitIdle (s : Sys) : Sys :=
   (List.range s.workers.length).foldl (fun s i => (step s (.workerExit i)).getD s) s
 
-/-- Make request `m` the one a worker receives now. -/
+/-- The subscription whose handler is blocked sending `m`. -/
+def senderOf (s : Sys) (m : Msg) : Option Nat := s.subs.findIdx? (fun sb => sb.cb == .sending m)
+
+def subjLookup (v : VState) (m : Msg) : Option Nat := (v.subjOf.find? (·.1 == m)).map (·.2)
+
+/-- `m` is in the buffer of workC and every frame ahead of it came in on another subscription. -/
+def crossSubOnly (v : VState) (m : Msg) : Bool :=
+  m ∈ v.s.workC &&
+    match subjLookup v m with
+    | some j => (v.s.workC.takeWhile (· != m)).all fun x => subjLookup v x != some j
+    | none => false
+
+/-- A frame `y` in the buffer that came in on another subscription than `j` and whose handler has not
+returned yet: its send may as well still be blocked (the model completed it eagerly). -/
+def swappable (v : VState) (j : Nat) : Option (Msg × Nat) :=
+  v.s.workC.findSome? fun y =>
+    match subjLookup v y with
+    | some jy => if jy != j && subCb v.s jy == .sent y then some (y, jy) else none
+    | none => none
+
+/-- Undo the eager send of `y` (subscription `jy`): its handler is blocked again. -/
+def unsend (v : VState) (y : Msg) (jy : Nat) : VState :=
+  match v.s.subs[jy]? with
+  | some sb => { v with s := { v.s with workC := v.s.workC.erase y, subs := v.s.subs.set jy { sb with cb := .sending y } } }
+  | none => v
+
+/-- Make request `m` the one a worker receives now. The sends of concurrent handlers are hidden and may
+have happened in any order between their `E` and the receive: frames of OTHER subscriptions may be
+overtaken (moved behind `m`, or their eager send undone); the order within one subscription is kept. -/
 def takeMsg (m : Msg) : Nat → VState → Option VState
   | fuel, v =>
-    match v.s.workC with
-    | x :: _ =>
-      if x = m then do
-        let i ← idleWorker v.s.workers
-        stepV v (.workerTake i)
-      else match fuel with
-        | 0 => none
-        | fuel + 1 => (hypoTake v).bind (takeMsg m fuel)      -- an earlier frame was received, its `D` is late
-    | [] =>
-      if v.s.cb = .sending m then
-        match stepV v .handlerEnqueue, fuel with
-        | some v', fuel + 1 => takeMsg m fuel v'
-        | some _, 0 => none
-        | none, _ => do                                       -- q = 0: direct hand-off
+    if m ∈ v.s.workC then
+      match v.s.workC with
+      | x :: _ =>
+        if x = m then (idleWorker v.s.workers).bind fun i => stepV v (.workerTake i)
+        else if crossSubOnly v m then
+          let v' := { v with s := { v.s with workC := m :: v.s.workC.erase m } }
+          (idleWorker v'.s.workers).bind fun i => stepV v' (.workerTake i)
+        else match fuel with
+          | 0 => none
+          | fuel + 1 => (hypoTake 0 v).bind (takeMsg m fuel)    -- an earlier frame was received, its `D` is late
+      | [] => none
+    else do
+      let j ← senderOf v.s m
+      match stepV v (.handlerEnqueue j), fuel with
+      | some v', fuel + 1 => takeMsg m fuel v'
+      | some _, 0 => none
+      | none, fuel =>
+        if v.s.workC.isEmpty then do                            -- q = 0: direct hand-off
           let i ← idleWorker v.s.workers
-          stepV v (.workerTake i)
-      else none
+          stepV v (.workerHandoff i j)
+        else if v.s.workC.all (fun x => subjLookup v x != some j) then do
+          -- the buffer holds frames of OTHER subscriptions only: `m` may have been handed to the parked worker
+          -- before they were sent (its `D` is logged late)
+          let i ← idleWorker v.s.workers
+          let s1 ← step { v.s with workC := [] } (.workerHandoff i j)
+          pure { v with s := { s1 with workC := v.s.workC } }
+        else match fuel, swappable v j with
+          | fuel + 1, some (y, jy) => takeMsg m fuel (unsend v y jy)
+          | fuel + 1, none => (hypoTake j v).bind (takeMsg m fuel)
+          | 0, _ => none
 
 inductive Ev where
-  | e (m : Msg) | d (m : Msg) | p (m : Msg) | x (m : Msg) | sc | sr | sre | vr | fc
+  | e (m : Msg) (j : Nat) | d (m : Msg) | p (m : Msg) | x (m : Msg) (j : Nat) | sc | sr | sre | vr | fc
 
 def parseEv (t : String) : Option Ev :=
   match t.toList with
@@ -126,25 +182,34 @@ def parseEv (t : String) : Option Ev :=
   | ['S', 'R', 'E'] => some .sre
   | ['V', 'R'] => some .vr
   | ['F', 'C'] => some .fc
-  | 'X' :: r => (String.ofList r).toNat?.map .x
-  | 'E' :: r => (String.ofList r).toNat?.map .e
+  | 'X' :: r => match (String.ofList r).splitOn "/" with
+    | [m, j] => do pure (.x (← m.toNat?) (← j.toNat?))
+    | _ => none
+  | 'E' :: r => match (String.ofList r).splitOn "/" with
+    | [m, j] => do pure (.e (← m.toNat?) (← j.toNat?))
+    | _ => none
   | 'D' :: r => (String.ofList r).toNat?.map .d
   | 'P' :: r => (String.ofList r).toNat?.map .p
   | _ => none
 
-def dropMsg (m : Msg) (v : VState) : Option VState := do
-  let s ← if m ∈ v.s.arrived then some v.s else step v.s (.arrive m)
-  let s := deliverAll s.inflight.length s
-  let s ← step s .cbStart
+def dropMsg (m : Msg) (j : Nat) (v : VState) : Option VState := do
+  let s ← if m ∈ v.s.arrived then some v.s else step v.s (.arrive j m)
+  let s := deliverAll j (inflightLen s j) s
+  let s ← step s (.cbStart j)
   if m ∈ s.dropped then some { v with s := s } else none
 
 def applyEv (v : VState) : Ev → Option VState
-  | .e m => do
-    let v ← finishCb (v.s.workers.length + 2) v
-    let s ← if m ∈ v.s.arrived then some v.s else step v.s (.arrive m)
-    let s := deliverAll s.inflight.length s
-    let s ← step s .cbStart
-    if s.cb = .sending m then some { v with s := s } else none
+  | .e m j => do
+    let v ← finishCb (v.s.workers.length + 2) j v
+    let s ← if m ∈ v.s.arrived then some v.s else step v.s (.arrive j m)
+    let s := deliverAll j (inflightLen s j) s
+    let s ← step s (.cbStart j)
+    if subCb s j = .sending m then
+      -- the send follows the log at once: it completes now if the buffer has room (the model's buffer holds
+      -- at least what the real one holds), otherwise the handler stays blocked and the send is filled in later
+      let s := (step s (.handlerEnqueue j)).getD s
+      some { v with s := s, subjOf := (m, j) :: v.subjOf }
+    else none
   | .d m =>
     if m ∈ v.unconf then some { v with unconf := v.unconf.erase m }
     else takeMsg m (v.s.workers.length + 2) v
@@ -157,7 +222,7 @@ def applyEv (v : VState) : Ev → Option VState
     let v ← stepV v (.workerWriteOk i)
     let v ← stepV v (.workerUnlock i)
     stepV v (.workerReply i)
-  | .x m => (advanceAny 6 v).bind (dropMsg m)     -- the queue is closed; the request is turned away
+  | .x m j => (advanceAny 6 v).bind (dropMsg m j)     -- the queue is closed; the request is turned away
   | .sc => stepV v .stopCall
   | .fc => stepV v .fault
   | .sr => do
@@ -187,11 +252,12 @@ def validate (v : VState) (k : Nat) : List String → String
 
 /-! The model's own fair execution of a configuration. -/
 
-def systemActions (w : Nat) : List Action :=
-  [.serveGotQuit, .drainStart, .deliver, .flushBarrier, .cbStart, .handlerEnqueue, .callbackDone, .barrierFires,
-   .sendResult, .stopReturn, .closeWorkC, .serveReturn] ++
+def systemActions (w k : Nat) : List Action :=
+  [.serveGotQuit, .drainStart] ++
+  ((List.range k).flatMap fun j => [Action.deliver j, .cbStart j, .handlerEnqueue j, .callbackDone j]) ++
+  [.flushBarrier, .barrierFires, .sendResult, .stopReturn, .closeWorkC, .serveReturn] ++
   (List.range w).flatMap fun i => [Action.workerReply i, .workerUnlock i, .workerWriteOk i, .workerErrReply i,
-    .workerLock i, .workerHandlerDone i, .workerTake i, .workerExit i]
+    .workerLock i, .workerHandlerDone i, .workerTake i, .workerExit i] ++ (List.range k).map (Action.workerHandoff i)
 
 def firstEnabled (s : Sys) : List Action → Option Sys
   | [] => none
@@ -200,24 +266,34 @@ def firstEnabled (s : Sys) : List Action → Option Sys
     | none => firstEnabled s as
 
 /-- Alternate one system action with one offered arrival until nothing moves. -/
-def fairRun (w : Nat) : Nat → Sys → List Msg → Sys
+def fairRun (w k : Nat) (subj : Nat → Nat) : Nat → Sys → List Msg → Sys
   | 0, s, _ => s
   | fuel + 1, s, offered =>
     let (s1, offered, moved1) := match offered with
-      | m :: rest => match step s (.arrive m) with
+      | m :: rest => match step s (.arrive (subj m) m) with
         | some s' => (s', rest, true)
         | none => (s, rest, false)
       | [] => (s, [], false)
-    match firstEnabled s1 (systemActions w) with
-    | some s2 => fairRun w fuel s2 offered
-    | none => if moved1 || !offered.isEmpty then fairRun w fuel s1 offered else s1
+    match firstEnabled s1 (systemActions w k) with
+    | some s2 => fairRun w k subj fuel s2 offered
+    | none => if moved1 || !offered.isEmpty then fairRun w k subj fuel s1 offered else s1
 
-def predictRun (w q stopPos n : Nat) : String :=
-  let s0 := init w q
+/-- The subject of request `i` in a configuration with `k` subjects and spread `p` (as the harness does it). -/
+def subjectOf (k : Nat) (p : Char) (i : Nat) : Nat :=
+  if k ≤ 1 then 0 else
+  match p with
+  | 'f' => 0
+  | 'l' => k - 1
+  | 'u' => if i % 4 = 3 then k - 1 else 0
+  | _ => i % k
+
+def predictRun (w q stopPos n k : Nat) (p : Char) : String :=
+  let s0 := init w q k
+  let subj := subjectOf k p
   let pre := (List.range (min stopPos n))
-  let s1 := pre.foldl (fun s m => (step s (.arrive m)).getD s) s0
+  let s1 := pre.foldl (fun s m => (step s (.arrive (subj m) m)).getD s) s0
   let s2 := (step s1 .stopCall).getD s1
-  let s := fairRun w (40 * (n + 10) + 100) s2 ((List.range n).drop (min stopPos n))
+  let s := fairRun w k subj (60 * (n + 10) + 100) s2 ((List.range n).drop (min stopPos n))
   let once := s.arrived.all fun m => s.processed.count m == 1 && s.replied.count m == 1
   let sv := if s.serve = .returned then "returned" else "hung"
   let st := if s.stop = .returned then "returned" else "hung"
@@ -254,26 +330,31 @@ def optsOk (o : String) : Bool :=
 
 def stepNsrun (args : List String) : String :=
   match args with
-  | [w, q, sp, gap, delay, jit, pub2, fault, opts, durs] =>
+  | [w, q, sp, gap, delay, jit, pub2, fault, opts, subj, durs] =>
     match w.toNat?, q.toNat?, sp.toNat?, gap.toNat?, delay.toNat?, jit.toNat?, pub2.toNat? with
     | some w, some q, some sp, some gap, some delay, some jit, some pub2 =>
       let ds := (durs.splitOn ",").map durTok
       if !faultOk fault || !optsOk opts then "bad-args" else
+      match subj.toList with
+      | [kc, p] =>
+      if !('1' ≤ kc && kc ≤ '4' && p ∈ ['s', 'f', 'l', 'u']) then "bad-args" else
+      let k := kc.toNat - 48
       if w < 1 ∨ w > 64 ∨ q > 1024 ∨ gap > 100000 ∨ delay > 100000 ∨ jit > 100000 ∨ pub2 > 500 ∨ ds.isEmpty ∨ ds.length > 400
           ∨ ds.any (fun d => match d with | some d => d > 20000 | none => true) then "bad-args"
-      else predictRun w q sp ds.length
+      else predictRun w q sp ds.length k p
+      | _ => "bad-args"
     | _, _, _, _, _, _, _ => "bad-args"
   | _ => "bad-args"
 
 def stepNatsServer (op : String) (args : List String) : Option String :=
   match op, args with
-  | "nstrace", [w, q, tr] =>
-    match w.toNat?, q.toNat? with
-    | some w, some q =>
-      if w < 1 ∨ w > 64 ∨ q > 1024 then some "bad-args" else
+  | "nstrace", [w, q, k, tr] =>
+    match w.toNat?, q.toNat?, k.toNat? with
+    | some w, some q, some k =>
+      if w < 1 ∨ w > 64 ∨ q > 1024 ∨ k < 1 ∨ k > 4 then some "bad-args" else
       let evs := if tr == "." then [] else tr.splitOn ","
-      some (validate { s := init w q, unconf := [], fail := evs.contains "SRE" } 0 evs)
-    | _, _ => some "bad-args"
+      some (validate { s := init w q k, unconf := [], fail := evs.contains "SRE" } 0 evs)
+    | _, _, _ => some "bad-args"
   | "nsrun", args => some (stepNsrun args)
   | "nsrun1", args => some (stepNsrun args)
   | "nstrace", _ => some "bad-args"
